@@ -29,8 +29,29 @@ var bigOne = big.NewInt(1)
 func simple(doc string, f func(x *Exec, st *State, ci *callInfo, a []Val) Val) libFn {
 	return func(x *Exec, st *State, ci *callInfo, args []Val, k func(*State, Val)) {
 		x.usedModels[ci.name] = doc
-		k(st, f(x, st, ci, args))
+		k(st, x.nameResult(st, f(x, st, ci, args)))
 	}
+}
+
+// nameResult binds large result terms of library models to fresh constants (keeps the VCs small).
+func (x *Exec) nameResult(st *State, v Val) Val {
+	switch r := v.(type) {
+	case T:
+		if r.Segs == nil && r.Nil == "" && len(r.S) > 60 {
+			return x.named(st, r, "v")
+		}
+	case *TupleV:
+		n := &TupleV{}
+		for _, e := range r.Vs {
+			n.Vs = append(n.Vs, x.nameResult(st, e))
+		}
+		return n
+	case *ErrV:
+		if len(r.IsNil.S) > 60 {
+			return &ErrV{IsNil: x.named(st, r.IsNil, "ok")}
+		}
+	}
+	return v
 }
 
 func reg(name, doc string, f func(x *Exec, st *State, ci *callInfo, a []Val) Val) {
@@ -232,6 +253,13 @@ func init() {
 	// ---- sdk.Dec (value * 10^18) -----------------------------------------------------------------------
 	dec := "(" + sdkT + "Dec)."
 	reg(dec+"Mul", "round-half-even(a*b / 10^18); 315-bit overflow panic not modelled", func(x *Exec, st *State, ci *callInfo, a []Val) Val {
+		// exact case: one operand is an integer converted with ToDec (x * 10^18): the product is divisible by 10^18
+		for i := 0; i < 2; i++ {
+			s := tt(a[i]).S
+			if strings.HasPrefix(s, "(* ") && strings.HasSuffix(s, " "+e18+")") {
+				return Mul(tt(a[1-i]), T{S: s[3 : len(s)-len(e18)-2], So: SInt})
+			}
+		}
 		return chopRound(Mul(tt(a[0]), tt(a[1])))
 	})
 	reg(dec+"Quo", "round-half-even(trunc(a*10^36 / b) / 10^18); panics iff b == 0", func(x *Exec, st *State, ci *callInfo, a []Val) Val {
@@ -500,39 +528,56 @@ func init() {
 			return app(res, "uf_"+name, arg)
 		}
 	}
-	accFrom := uf1("accFromBech32", SString)
-	valFrom := uf1("valFromBech32", SString)
-	bechOK := uf1("bech32ok", SBool)
-	bechAcc := uf1("bech32acc", SString)
-	bechVal := uf1("bech32val", SString)
-	reg(sdkT+"AccAddressFromBech32", "(accFromBech32(s), err) with err == nil iff bech32ok(s); round trip axioms with String()", func(x *Exec, st *State, ci *callInfo, a []Val) Val {
-		s := tt(a[0])
-		ok := bechOK(x, s)
-		addr := accFrom(x, s)
-		st.assume(Implies(ok, And(Eq(bechAcc(x, addr), s), Gt(StrLen(addr), IntLit(0)))), "bech32 round trip")
-		return &TupleV{Vs: []Val{Ite(ok, addr, T{S: `""`, So: SString}), &ErrV{IsNil: ok}}}
-	})
-	reg(sdkT+"ValAddressFromBech32", "(valFromBech32(s), err)", func(x *Exec, st *State, ci *callInfo, a []Val) Val {
-		s := tt(a[0])
-		x.e.declareFun("uf_bech32valok", "(String) Bool")
-		ok := app(SBool, "uf_bech32valok", s)
-		addr := valFrom(x, s)
-		st.assume(Implies(ok, And(Eq(bechVal(x, addr), s), Gt(StrLen(addr), IntLit(0)))), "bech32 round trip")
-		return &TupleV{Vs: []Val{Ite(ok, addr, T{S: `""`, So: SString}), &ErrV{IsNil: ok}}}
-	})
-	reg("("+sdkT+"AccAddress).String", "bech32acc(bytes); decoding it gives the bytes back (non-empty addresses)", func(x *Exec, st *State, ci *callInfo, a []Val) Val {
-		b := tt(a[0])
-		s := bechAcc(x, b)
-		st.assume(Implies(Gt(StrLen(b), IntLit(0)), And(bechOK(x, s), Eq(accFrom(x, s), b))), "bech32 round trip")
-		return s
-	})
-	reg("("+sdkT+"ValAddress).String", "bech32val(bytes); decoding it gives the bytes back", func(x *Exec, st *State, ci *callInfo, a []Val) Val {
-		b := tt(a[0])
-		s := bechVal(x, b)
-		x.e.declareFun("uf_bech32valok", "(String) Bool")
-		st.assume(Implies(Gt(StrLen(b), IntLit(0)), And(app(SBool, "uf_bech32valok", s), Eq(valFrom(x, s), b))), "bech32 round trip")
-		return s
-	})
+	_ = uf1
+	bechFork := func(okFn, fromFn, toFn string) libFn {
+		return func(x *Exec, st *State, ci *callInfo, args []Val, k func(*State, Val)) {
+			x.usedModels[ci.name] = "forks: valid input -> (decode(s), nil) with encode(decode(s)) == s and non-empty bytes; invalid -> (empty, err)"
+			s := tt(args[0])
+			x.e.declareFun(okFn, "(String) Bool")
+			x.e.declareFun(fromFn, "(String) String")
+			x.e.declareFun(toFn, "(String) String")
+			ok := app(SBool, okFn, s)
+			addr := app(SString, fromFn, s)
+			if pcHas(st, ok) {
+				k(st, &TupleV{Vs: []Val{addr, &ErrV{IsNil: TTrue}}})
+				return
+			}
+			if pcHas(st, Not(ok)) {
+				k(st, &TupleV{Vs: []Val{T{S: `""`, So: SString}, &ErrV{IsNil: TFalse}}})
+				return
+			}
+			bad := st.clone()
+			x.paths++
+			st.assume(ok, "valid bech32")
+			st.assume(And(Eq(app(SString, toFn, addr), s), Gt(StrLen(addr), IntLit(0))), "bech32 round trip")
+			k(st, &TupleV{Vs: []Val{addr, &ErrV{IsNil: TTrue}}})
+			bad.assume(Not(ok), "invalid bech32")
+			k(bad, &TupleV{Vs: []Val{T{S: `""`, So: SString}, &ErrV{IsNil: TFalse}}})
+		}
+	}
+	libModels[sdkT+"AccAddressFromBech32"] = bechFork("uf_bech32ok", "uf_accFromBech32", "uf_bech32acc")
+	libModels[sdkT+"ValAddressFromBech32"] = bechFork("uf_bech32valok", "uf_valFromBech32", "uf_bech32val")
+	strModel := func(okFn, fromFn, toFn string) func(x *Exec, st *State, ci *callInfo, a []Val) Val {
+		return func(x *Exec, st *State, ci *callInfo, a []Val) Val {
+			b := tt(a[0])
+			x.e.declareFun(okFn, "(String) Bool")
+			x.e.declareFun(fromFn, "(String) String")
+			x.e.declareFun(toFn, "(String) String")
+			// decode(s).String() == s when s was decoded successfully on this path
+			pre := "(" + fromFn + " "
+			if strings.HasPrefix(b.S, pre) && strings.HasSuffix(b.S, ")") {
+				inner := T{S: b.S[len(pre) : len(b.S)-1], So: SString}
+				if pcHas(st, app(SBool, okFn, inner)) {
+					return inner
+				}
+			}
+			s := app(SString, toFn, b)
+			st.assume(Implies(Gt(StrLen(b), IntLit(0)), And(app(SBool, okFn, s), Eq(app(SString, fromFn, s), b))), "bech32 round trip")
+			return s
+		}
+	}
+	reg("("+sdkT+"AccAddress).String", "bech32acc(bytes); decoding it gives the bytes back (non-empty addresses)", strModel("uf_bech32ok", "uf_accFromBech32", "uf_bech32acc"))
+	reg("("+sdkT+"ValAddress).String", "bech32val(bytes); decoding it gives the bytes back (non-empty addresses)", strModel("uf_bech32valok", "uf_valFromBech32", "uf_bech32val"))
 	reg("("+sdkT+"AccAddress).Bytes", "the bytes", func(x *Exec, st *State, ci *callInfo, a []Val) Val { return a[0] })
 	reg("("+sdkT+"ValAddress).Bytes", "the bytes", func(x *Exec, st *State, ci *callInfo, a []Val) Val { return a[0] })
 	reg(sdkT+"AccAddressFromHex", "(hex2bytes(s), err): err iff s is empty or not hex", func(x *Exec, st *State, ci *callInfo, a []Val) Val {
@@ -706,6 +751,16 @@ func (x *Exec) sliceTerms(st *State, v Val) []T {
 		res = append(res, tt(x.e.getPath(st, st.Heap[sl.Back], []PathEl{{Field: -1, Idx: &idx}})))
 	}
 	return res
+}
+
+// pcHas: the path condition contains the literal t (syntactic check).
+func pcHas(st *State, t T) bool {
+	for _, h := range st.PC {
+		if h.S == t.S {
+			return true
+		}
+	}
+	return false
 }
 
 func hasPrefixAny(s string, ps ...string) bool {
